@@ -401,6 +401,12 @@ def run(ctx):
     ctx.guard("reset", "all", lambda: check_reset(ctx, P))
     ctx.guard("fin-reset", "all", lambda: check_fin_reset(ctx, P))
     ctx.guard("clone", "all", lambda: check_clone(ctx, P))
+    # the legacy `Digest` objects are hash contexts too: input / result / reset must reach the hashing context they wrap on
+    # every path (a reset that only clears the wrapper's flag keeps the bytes already fed) -- rule instances shared with C09
+    from . import objects
+    for T in sorted(objects.LEGACY):
+        if objects.LEGACY[T][1] is not None:
+            ctx.guard("legacy", T, lambda: objects.check_legacy_digest(ctx, P, T, "C02"))
     # finalisation must overwrite every staging-buffer byte it hands to the compression function: stale bytes from an
     # earlier split, reset or clone would otherwise leak into the digest (shared rule instances with C01)
     from . import C01 as _C01
@@ -417,4 +423,4 @@ def run(ctx):
             Pc = ctx.prog(cfg)
             ctx.guard("absorb", "all@" + cfg, lambda: check_absorb(ctx, Pc))
             ctx.guard("block-run", "all@" + cfg, lambda: check_block_runs(ctx, Pc))
-    ctx.not_decided += ["digest values (C01)", "SIMD batching of block runs (C16)", "Digest-trait objects' flags (C09)"]
+    ctx.not_decided += ["digest values (C01)", "SIMD batching of block runs (C16)", "Digest-trait objects' sizes and the Mac objects (C08, C09)"]
